@@ -29,13 +29,17 @@ pub struct Case {
     /// inbound checksums; its reply must be well-formed all the same)
     #[serde(default)]
     pub req_csum: Option<u16>,
+    /// an earlier ARP request (or neighbour solicitation) from the client's IP address but with
+    /// this other hardware address
+    #[serde(default)]
+    pub alias_mac: Option<[u8; 6]>,
 }
 
 pub fn case_strategy() -> impl Strategy<Value = Case> {
     scenario_quiet(Fam::Any).prop_flat_map(|scn| {
         let v4 = scn.net.is_v4();
         let csum = prop_oneof![5 => Just(None), 1 => prop::sample::select(vec![0u16, 0xffff, 0xdead, 1]).prop_map(Some), 1 => any::<u16>().prop_map(Some)];
-        (Just(scn), prop_oneof![2 => Just(vec![]), 1 => vec(step_leaf(), 0..=6)], req(v4), csum).prop_map(|(scn, hist, req, req_csum)| Case { scn, hist, req, req_csum })
+        (Just(scn), prop_oneof![2 => Just(vec![]), 1 => vec(step_leaf(), 0..=6)], req(v4), csum, prop::option::weighted(0.15, mac_unicast())).prop_map(|(scn, hist, req, req_csum, alias_mac)| Case { scn, hist, req, req_csum, alias_mac })
     })
 }
 
@@ -51,6 +55,21 @@ pub fn run_case(c: &Case, st: &mut Stats) -> Option<(Vec<u8>, Vec<u8>)> {
     let sut = Sut::new(&c.scn.cfg);
     let mut w = World::new(&sut, &c.scn.net, 40000, 4444);
     st.eval();
+    if let Some(m) = &c.alias_mac {
+        // same IP address, other hardware address
+        let n = &c.scn.net;
+        let f = match (&n.cip, &n.sip) {
+            (IpAddr::V4(ci), IpAddr::V4(si)) => arp_req_frame(m, &n.dmac, ci.octets(), si.octets()),
+            (_, IpAddr::V6(si)) => {
+                let mut n2 = n.clone();
+                n2.cmac = *m;
+                ns_frame(&n2, &si.octets(), &[1, 1, m[0], m[1], m[2], m[3], m[4], m[5]])
+            }
+            _ => vec![],
+        };
+        let _ = sut.frame(&f);
+        st.class("history:alias-arp/ns-from-the-client-ip-with-another-mac");
+    }
     for s in &c.hist {
         let (_f, o) = w.send(s);
         if o.panic().is_some() {
